@@ -295,9 +295,14 @@ func c15One(x *engine.Ctx, c *c15Case, base *hstate, strat int, f simfs.Fault, f
 	// binding to the shipped binary: the recovery of every c15CLIEvery-th fault point is also run
 	// on the built binary (torn file = truncated file in a native directory)
 	c15Count++
-	var cliState *hstate
+	var cliState, cliLinked *hstate
 	if (x.Replay || c15Count%c15CLIEvery == 0) && s.W.ClockMode == simfs.TickPerWrite {
 		cliState = s.clone()
+	}
+	// and the recovery of another every c15CLIEvery-th on a native directory whose artifact files are kept in a store
+	// directory and linked into place (the interrupted run wrote through the links, which are older than every file)
+	if (x.Replay || c15Count%c15CLIEvery == c15CLIEvery/2) && s.W.ClockMode == simfs.TickPerWrite {
+		cliLinked = s.clone()
 	}
 	// recovery: next run with the default flags
 	t0 := time.Now().Unix()
@@ -350,6 +355,18 @@ func c15One(x *engine.Ctx, c *c15Case, base *hstate, strat int, f simfs.Fault, f
 			}
 		}
 	}
+	if cliLinked != nil {
+		cres, cerr := drive.RunCLILinkedArtifacts(cliLinked.W, drive.Default, "y\n")
+		if cerr == nil {
+			x.TraceValidated(1)
+			x.Info("binary recoveries on linked artifacts", 1)
+			if cres.Exit != 0 {
+				v("cli-binding/linked-artifacts/recovery-exit-status", fmt.Sprintf("binary exit %d: %s", cres.Exit, short(cres.Stdout, 300)))
+			} else if canonKeyOpt(cliLinked, false) != canonKeyOpt(s, false) {
+				v("cli-binding/linked-artifacts/recovered-state-differs", fmt.Sprintf("lib: %s\n  cli: %s", short(canonKeyOpt(s, false), 1200), short(canonKeyOpt(cliLinked, false), 1200)))
+			}
+		}
+	}
 	// a further run is a no-op
 	mid := s.W.Clone()
 	r3 := drive.Run(s.W, drive.Default, nil)
@@ -368,7 +385,7 @@ func init() {
 	register(&engine.Check{
 		ID:          "C15",
 		Level:       "fault_enumeration",
-		Rule:        "2 hierarchies (root->sub->leaf; root->{sub->leaf, sub2} with sub2 under an explicit alias in a sub-directory and leaf in a dotted sub-directory, all under a key-id profile) x 7 histories (initial run; settled + edit root / sub / leaf subject; settled + strip root key; settled + generate-all; settled + profile edit) x 2 clock modes: in the faulted run every write k (all writes of the run) x outcome {error without write, error after a prefix, process death after a prefix, death right after the complete write}; prefix lengths = each PEM-block boundary (hash line, certificate, key) -1/0/+1 and every 32nd byte (quick) / every byte offset for the 3-tier chain with per-write ticks and every 8th byte for the other hierarchy/clock combinations (thorough) of the ~1.2 kB file; two-fault sequences (any fault of the block-boundary alphabet at any write of the recovery run, then a clean run). Oracle: an injected write error makes the run return an error; the next default run succeeds without panic; afterwards every entity has exactly one certificate and key, every certificate verifies under its issuer with byte-equal DN, matches its configuration (reference translation) and its key; a further run is a no-op. non-trivial = fault points reached (distinct by construction); and the built binary on a native directory where the artifact of the root, the intermediate or the leaf cannot be written (a directory stands in its place): exit status non-zero, and once the obstacle is removed the next run completes the chain",
+		Rule:        "2 hierarchies (root->sub->leaf; root->{sub->leaf, sub2} with sub2 under an explicit alias in a sub-directory and leaf in a dotted sub-directory, all under a key-id profile) x 7 histories (initial run; settled + edit root / sub / leaf subject; settled + strip root key; settled + generate-all; settled + profile edit) x 2 clock modes: in the faulted run every write k (all writes of the run) x outcome {error without write, error after a prefix, process death after a prefix, death right after the complete write}; prefix lengths = each PEM-block boundary (hash line, certificate, key) -1/0/+1 and every 32nd byte (quick) / every byte offset for the 3-tier chain with per-write ticks and every 8th byte for the other hierarchy/clock combinations (thorough) of the ~1.2 kB file; two-fault sequences (any fault of the block-boundary alphabet at any write of the recovery run, then a clean run). Oracle: an injected write error makes the run return an error; the next default run succeeds without panic; afterwards every entity has exactly one certificate and key, every certificate verifies under its issuer with byte-equal DN, matches its configuration (reference translation) and its key; a further run is a no-op. non-trivial = fault points reached (distinct by construction); and the built binary on a native directory where the artifact of the root, the intermediate or the leaf cannot be written (a directory stands in its place): exit status non-zero, and once the obstacle is removed the next run completes the chain; the recovery of another every 25th fault point is run by the binary on a native directory whose artifact files are kept in a store directory and linked into place, with the same comparison",
 		Bound:       map[string]string{"crash model": "prefixes of a single in-place write (open+truncate+write, no fsync/rename)", "fault sequences": "<=2"},
 		Assumptions: []string{"post-power-loss block reordering and concurrent gopki processes are not modelled"},
 		Budget:      budgets(quickBudget, thoroughBudget),
